@@ -978,7 +978,10 @@ PROPS = {
                        "(on values within the 65 535 limit, which the infallible constructor does not enforce: D40). NSEC (unit rdnames, rdata/dnssec.rs, real text of Nsec::{new, next_name, set_next_name, types, rdlen, "
                        "compose_rdata, compose_canonical_rdata, parse}): the RDATA is the next name as stored, never compressed, followed by the bitmap; the canonical form is the same octets (RFC 6840 5.1 took NSEC off the "
                        "list of types whose names are lower-cased; seed C05-16 fails this postcondition); rdlen is its length with and without compression; parse reads a name and takes all that follows as the bitmap "
-                       "(whose own format is under contract in unit rtypebitmap).",
+                       "(whose own format is under contract in unit rtypebitmap). NSEC3 (units rdcompose / rdparse, rdata/nsec3.rs, real text of OwnerHash::{hash_len, compose_len, compose, from_octets_unchecked, parse} and "
+                       "Nsec3::{new, hash_algorithm, flags, opt_out, iterations, salt, next_owner, types, rdlen, compose_rdata, compose_canonical_rdata, parse}): one wire() -- algorithm, flags, big-endian iterations, "
+                       "length-prefixed salt, length-prefixed next hashed owner, bitmap -- is what both composers append, what rdlen() measures and what parse() reads; parse accepts exactly that layout with a "
+                       "well-formed bitmap in all that follows, consumes all of the record data and hands out parts that satisfy their 255-octet invariants; opt_out() is the least significant flag bit.",
         "assumptions": [
             "AsRefOctets models the bound AsRef<[u8]>: an octets value has one fixed content returned by every as_ref() call",
             "Rtype (int_enum! macro) is modelled as a 16-bit code with from_int/to_int",
